@@ -300,7 +300,7 @@ def main(argv=None):
         print("not reproduced")
         return 0
     quick = a.tier == "quick"
-    ev = common.Evidence(PROP, a.tier, a.seed, "exploration", "generated names (1..3 nested levels + two file names) from a generator biased to protocol metacharacters (quotes and doubled quotes, blanks incl. leading, ';', '=', MLSx-fact look-alikes, ' -> ', leading '-', digits / reply-header look-alikes, backslash, percent, PASV/EPSV-payload look-alikes, ls-line look-alikes, combining and astral characters) pushed through every path-taking client method against the real server; the backend tree and every returned name are compared after each step; non-trivial = at least five client operations were checked; distinct = distinct run digests")
+    ev = common.Evidence(PROP, a.tier, a.seed, "exploration", "generated names (1..3 nested levels + two file names) from a generator biased to protocol metacharacters (quotes and doubled quotes, blanks incl. leading, ';', '=', MLSx-fact look-alikes, ' -> ', leading '-', digits / reply-header look-alikes, backslash, percent, PASV/EPSV-payload look-alikes, ls-line look-alikes, combining and astral characters) pushed through every path-taking client method against the real server; the backend tree and every returned name are compared after each step; non-trivial = at least five client operations were checked; distinct = distinct run digests Each directory name is also used as the first component of an argument (listing of the named directory, a file inside it addressed from the parent).")
     rep = common.Reporter(PROP, ev)
     deadline = time.time() + (a.budget or (60 if quick else 1200))
     n = 3000 if quick else 400000
